@@ -38,7 +38,7 @@ CHUNK = 1 << 14
 def _masks(tier, seed):
     m = ["distinct", "distinct:rot90", "distinct:flip", "unit", "seed"]
     if tier == "thorough":
-        m = ["distinct"] + [f"distinct:d{k}" for k in range(1, 8)] + ["unit", "seed"]
+        m = ["distinct"] + [f"distinct:d{k}" for k in range(1, 6)] + ["unit", "seed"]
     return m
 
 
